@@ -48,8 +48,9 @@ def run(ctx, proofs):
     propeng.verdict(ctx, proofs, r, kinds=("value", "finding"), known_classes=(),
                     extra_cov={"open_statements": [
                         "not covered here: how the analysis RUNNER obtains the graph of a called function (the `ir` harness calls into_cfg with the curve itself, so a runner that "
-                        "lifts cached functions with Curve::default() is invisible to this check; the end-to-end engines run BN254 only); CS0010 as a finding (C11 has the threshold); "
-                        "prefix operators at operator level have no theorem of their own (they are covered inside C06_validated_graph_claims_true)",
+                        "lifts cached TEMPLATES with Curve::default() is invisible to this check; cached functions are seen by the end-to-end stage); CS0010 as a finding (C11 has the threshold)",
+                        "Spec.SsaRun.run_path has no rule for a phi reached along an edge that carries no version: C06_claims_true_along_paths speaks about paths on which every phi finds a "
+                        "versioned argument; the 256-bit complement is common to interpreter, specification, mirror and Rust code - whether Circom's runtime agrees is not decided here",
                         "the end-to-end stage compares the CLI's constant-condition reports under each --curve on closed functions only (the runner's function cache); "
                         "templates, includes and the other findings are the business of the end-to-end engines",
                         "the check uses the fixpoint budget only: a change of the ORDER in which facts are found is seen by C20 (per-budget mirror equality), not here"],
